@@ -97,8 +97,11 @@ TWrite ==
 
 TSaveEnd ==
     /\ Is("SaveEnd") /\ cur.on
-    /\ LET whole == cur.patt /\ cur.ph = "end" /\ ~Ev.threw IN
-       /\ (Strict /\ TraceLog[cur.line].e = "Save") => whole
+    /\ LET short == TraceLog[cur.line].e = "ShortSave"
+           model == cur.patt /\ cur.ph = "end" /\ ~Ev.threw          \* the writes were exactly FileStore!Save
+           whole == ~short /\ ~Ev.threw /\ (cur.patt => cur.ph = "end") \* a save that returned normally
+       IN
+       /\ (Strict /\ ~short) => model
        /\ fs' = [fs EXCEPT ![cur.f] =
                    IF whole THEN [ex |-> TRUE, k |-> "full", dl |-> cur.dl, valid |-> TRUE, id |-> cur.id, n |-> cur.n, unk |-> FALSE, line |-> cur.line]
                    ELSE [@ EXCEPT !.ex = TRUE, !.unk = TRUE, !.valid = FALSE]]
